@@ -1351,15 +1351,20 @@ def run_C15(ctx):
         pool = [dict(gpa=limbs(DLO[r] * 4096), size=limbs((DHI[r] - DLO[r]) * 4096), ua=limbs(uas[r]), off=limbs(rnd.choice([0, 0x1000]))) for r in range(5)]
         steps = [dict(op="negotiate", feats=[], pf=[1, 3, 13, 15])]
         ring_ready = False
+        tbl, lastlog = [], None
         for a in c["steps"]:
             op = a["op"]
             if op == "set_mem_table":
                 steps.append(dict(op=op, rids=a["rids"], badfd=False))
                 ring_ready = False
+                tbl = list(a["rids"])
             elif op == "add_mem_reg":
                 steps.append(dict(op=op, rid=a["rid"], badfd=False))
+                tbl.append(a["rid"])
             elif op == "set_log_base":
-                steps.append(dict(op=op, size=limbs(a["S"]), off=limbs(a["off"])))
+                # the window that is in force sent again: the very same file (a frontend re-sending its log)
+                steps.append(dict(op=op, size=limbs(a["S"]), off=limbs(a["off"]), same=(lastlog == (a["S"], a["off"]))))
+                lastlog = (a["S"], a["off"])
             elif op == "write":
                 size = (DHI[a["rid"]] - DLO[a["rid"]]) * 4096
                 o = {"0": 0, "1": 1, "4095": 4095, "end-1": size - 1, "end-4096": size - 4096}[a["wo"]]
@@ -1373,6 +1378,10 @@ def run_C15(ctx):
                     steps.append(dict(op="set_vring_addr", q=0, rid=0, odesc=limbs(0x100), oavail=limbs(0x300), oused=limbs(0x400), used_idx=0))
                     ring_ready = True
                 steps.append(dict(op="use_ring", q=0, idx=0, len=8, oused=limbs(0x400)))
+        if c["steps"] and c["steps"][-1]["op"] == "set_log_base":
+            # what the log that was just installed (or refused) is worth: one write into every region of the table
+            for r in tbl:
+                steps.append(dict(op="write", rid=r, o=limbs(0), len=limbs(1), via_held=False))
         cases.append(dict(nq=1, masks=[1], pool=pool, vring="rwlock" if i % 2 else "mutex", steps=steps))
     # concurrent writers on bits of the same log byte
     for n in ((2, 8) if ctx.tier == "quick" else (2, 3, 4, 8, 12, 16)):
